@@ -108,10 +108,13 @@ class ReaderCorrector(Corrector):
         fieldobj = reader.schema[fieldname]
         sugfield = fieldobj.spelling_fieldname(fieldname)
 
+        from whoosh.support.levenshtein import levenshtein
+
         for sug in reader.terms_within(sugfield, text, maxdist, prefix=prefix):
             # Higher scores are better, so negate the distance and frequency
+            # (the distance of this suggestion, not the maximum distance)
             f = freq(fieldname, sug) or 1
-            score = 0 - (maxdist + (1.0 / f * 0.5))
+            score = 0 - (levenshtein(text, sug) + (1.0 / f * 0.5))
             yield (score, sug)
 
 
